@@ -19,7 +19,7 @@ pub fn prop() -> Prop {
         max_len: 400,
         quick: 30_000,
         thorough: 300_000,
-        rule: "choice sequence -> envelope of serialised size 1 B .. 100 KB (log-uniform, padded with a byte-string payload) x {add_salt, add_salt_using(seeded), add_salt_with_len(n) for n in 0..64 and large, add_salt_in_range(a..=b) with a<=b, add_salt_instance, add_assertion_salted(p,o,true|false), add_assertion_envelope_salted, add_assertions_salted} x 12 independent repetitions (64 in one case in 16). oracle: result = original + exactly one new assertion with predicate known value 15 ('salt') whose object is #6.40018(byte string of length L); removing it restores the original bytes; add_salt: L within [max(8, ceil(0.05 s)), max(that+8, ceil(0.25 s))] for serialised size s; with_len(n): L = n, refused for n < 8; in_range(a..=b): a <= L <= b, refused for a < 8; salted assertion: found by its predicate, is a node whose subject is the assertion (p,o) and whose only assertion is a salt sized for that assertion; unsalted add is byte-identical to add_assertion; independent saltings have pairwise distinct digests (also in elided form) and, when the range has more than one value, not all the same length. non-trivial: size >= 200 B or a salted-assertion case; distinct by FNV-64 of (encoding, operation); salted add of an already elided / compressed / encrypted assertion (3 repetitions): one salt on it, digests pairwise distinct; add_assertions_salted with 2-4 assertions of very different sizes: one salt each, sized for its own assertion, pairwise different; one case in sixteen salts the same bytes on two fresh threads (different salts)",
+        rule: "choice sequence -> envelope of serialised size 1 B .. 100 KB (log-uniform, padded with a byte-string payload) x {add_salt, add_salt_using(seeded), add_salt_with_len(n) for n in 0..64 and large, add_salt_in_range(a..=b) with a<=b, add_salt_instance, add_assertion_salted(p,o,true|false), add_assertion_envelope_salted, add_assertions_salted} x 12 independent repetitions (64 in one case in 16). oracle: result = original + exactly one new assertion with predicate known value 15 ('salt') whose object is #6.40018(byte string of length L); removing it restores the original bytes; add_salt: L within [max(8, ceil(0.05 s)), max(that+8, ceil(0.25 s))] for serialised size s; with_len(n): L = n, refused for n < 8; in_range(a..=b): a <= L <= b, refused for a < 8; salted assertion: found by its predicate, is a node whose subject is the assertion (p,o) and whose only assertion is a salt sized for that assertion; unsalted add is byte-identical to add_assertion; independent saltings have pairwise distinct digests (also in elided form) and, when the range has more than one value, not all the same length. non-trivial: size >= 200 B or a salted-assertion case; distinct by FNV-64 of (encoding, operation); salted add of an already elided / compressed / encrypted assertion (3 repetitions): one salt on it, digests pairwise distinct; add_assertions_salted with 2-4 assertions of very different sizes: one salt each, sized for its own assertion, pairwise different; one case in sixteen salts the same bytes on two fresh threads (different salts); unsalted adds of an assertion already held in elided / compressed / plain form change nothing",
         assumptions: &["OS RNG is not broken: 12 independent salts of >= 8 bytes collide with probability < 2^-57"],
         extra: None,
     }
